@@ -387,7 +387,8 @@ def search_spectrum(Lmod, case, obs, obj, rng, stats):
     if kind == "SConst":
         want = 1.0 / bins
         # bin edges are accumulated in doubles: a clipped outer bin sees ulp(wavelength) / (max - min)
-        tol = 1e-12 + 16 * 2.2e-16 * hi / (hi - lo)
+        # (one rounding per accumulated edge: up to bins/2 ulp at the last edge; a thorough run showed 20 ulp at 44 bins)
+        tol = 1e-12 + (16 + bins) * 2.2e-16 * hi / (hi - lo)
         edges = obs["edges"]
         if edges[0] < lo or edges[-1] > hi:
             stats["const_edge_cases"] += 1       # the case in which the code before 879f8f0 halved a bin
